@@ -7,8 +7,13 @@ package test
 // ---------------------------------------------------------------------------------------------
 // Reuse of test results (C11): the local functions of test() that decide it.
 //
-//@ assume func verifyHash
+// verifyHash: a stored file counts as current exactly when the hash recorded on it EQUALS the given one (an
+// untagged file, or a tag that is only a prefix, does not).
+//@ func verifyHash
 //@   pure
+//@   requires state != nil
+//@   modifies nothing
+//@   ensures exact [C11]: result == bytes.Equal(hash, fs.ReadAttr(filename, xattrName, state.XattrsSupported))
 //@ assume func retrieveFromCache
 //@ assume func moveOutputFile
 //
@@ -197,3 +202,18 @@ package test
 //@   callsite (BuildState).LogTestResult failed_when_some_case_did_not [C26]: !target.Test.Results.TestCases.AllSucceeded() && \
 //@      arg_status == core.TargetTestFailed && arg_results == target.Test.Results && arg_target == target
 //@   returnsite a_verdict_is_always_reported [C26]: called("(BuildState).LogTestResult") || called("logTestSuccess")
+//
+// Format dispatch (C26): data is read as JUnit XML exactly when it starts with an XML declaration or with an
+// element whose name starts with "test" (<testsuites>, <testsuite>, <testcase>, <test>); everything else goes to
+// the `go test -v` reader. Empty data is an error, never an empty (passing) suite.
+//@ func looksLikeJUnitXMLTestResults
+//@   modifies nothing
+//@   ensures by_prefix [C26]: result == (len(b) >= 5 && b[0] == 60 && ((b[1] == 63 && b[2] == 120 && b[3] == 109 && b[4] == 108) || \
+//@      (b[1] == 116 && b[2] == 101 && b[3] == 115 && b[4] == 116)))
+//@ func parseTestResultDatum
+//@   opt nopanic=off
+//@   modifies heap
+//@   ensures empty_data_is_an_error [C26]: len(data) == 0 ==> result1 != nil
+//@   callsite parseJUnitXMLTestResults xml_goes_to_the_xml_reader [C26]: looksLikeJUnitXMLTestResults(data) && arg_data == data
+//@   callsite parseGoTestResults only_what_is_not_xml [C26]: !looksLikeJUnitXMLTestResults(data) && len(data) > 0 && arg_data == data
+//@   returnsite some_reader_ran [C26]: len(data) > 0 ==> called("parseJUnitXMLTestResults") || called("parseGoTestResults")
